@@ -111,6 +111,39 @@ Theorem C13_run_fuel_irrelevant : forall n m s r,
 Proof. exact run_fuel_irrelevant. Qed.
 Print Assumptions C13_run_fuel_irrelevant.
 
+(* determinism across VM reuse (the node runs all transactions of a block on one VM with vm.Reset in between): Reset, which
+   clears the invocation and evaluation stacks, the uncaught-exception register, the item counter, the gas consumed, the
+   limit and the price getter, followed by SetPriceGetter / SetGasLimit / LoadScript (vm_prepare: touches nothing else)
+   gives the initial state - so an execution on a reused VM is the execution on a fresh one.  init_state is thereby the
+   specification of what Reset has to re-establish; the harness runs every script also after Reset on a used VM and
+   compares outcome and trace with the fresh run and the model. *)
+Theorem C13_reset_is_init : forall s prog sid base limit,
+  vm_prepare (vm_reset s) prog sid base limit = init_state prog sid base limit.
+Proof. exact reset_is_init. Qed.
+Print Assumptions C13_reset_is_init.
+Theorem C13_run_after_reset : forall s prog sid base limit n,
+  run n (vm_prepare (vm_reset s) prog sid base limit) = run n (init_state prog sid base limit).
+Proof. exact run_after_reset. Qed.
+Print Assumptions C13_run_after_reset.
+
+(* each of these registers matters: with the exception register, the item counter, the gas consumed or a try context left
+   over, a script ends differently than from the initial state
+   (TRY/ENDTRY/finally/ENDFINALLY; PUSHINT16 2040 NEWARRAY DEPTH; PUSH1 PUSH1 ADD at its exact limit; PUSH1 THROW NOP) *)
+Example C13_reset_registers_matter :
+  let halts r := match r with Halted _ => true | _ => false end in
+  let fr := empty_frame 0 (-1) in
+  let st p exc refs gas try limit base :=
+    mkState (mkFrame 0 None None try (-1)) (mkScript p 1%N None [] false) [] [] [] refs exc gas limit base in
+  let fin := [59; 0; 5; 61; 5; 23; 63; 33; 24] in
+  let near := [1; 248; 7; 195; 67] in
+  let gasx := [17; 17; 158] in
+  let thr := [17; 58; 33] in
+  halts (run 20 (init_state fin 1%N 1 10000)) = true /\ halts (run 20 (st fin (Some (IInt 1)) 0 0 [] 10000 1)) = false /\
+  halts (run 20 (init_state near 1%N 1 1000000)) = true /\ halts (run 20 (st near None 8 0 [] 1000000 1)) = false /\
+  halts (run 20 (init_state gasx 1%N 10000 100000)) = true /\ halts (run 20 (st gasx None 0 1 [] 100000 10000)) = false /\
+  halts (run 20 (init_state thr 1%N 1 10000)) = false /\ halts (run 20 (st thr None 0 0 [mkTry 2 (-1) (-1) ETry] 10000 1)) = true.
+Proof. vm_compute. repeat split; reflexivity. Qed.
+
 (* non-vacuity: boundary values through the primitives and through a script *)
 Example C13_examples :
   ar_div (- 2 ^ 255) (-1) = None /\ ar_div (-7) 2 = Some (-3) /\ ar_mod (-7) 2 = Some (-1) /\
